@@ -4,7 +4,8 @@ import HG.Lemmas.Cache
 `InMemoryCache` is a correct bounded LRU refinement of a map; `DiskCache.get` never deserialises
 unauthenticated bytes, never fails, and never returns a value that was not stored under the key;
 a torn `set` reads as a miss; the (repaired) cache key separates definition, class, output names,
-targets and arguments — the arguments under the function's *original parameter names*
+targets, the gate's fallback target and arguments — the arguments under the function's *original
+parameter names*
 (`map_inputs_to_params`, `toParams`), so input renames are transparent to the cache and never make two
 different calls collide; cached execution of a node is transparent.
 
@@ -298,15 +299,17 @@ example : ((Disk.setCrashAfterFirstWrite natCodec (Disk.set natCodec Disk.empty 
 
 /-! ## 5. cache keys -/
 
-/-- different definition, class, output names, targets or arguments ⇒ different keys -/
+/-- different definition, class, output names, targets, fallback or arguments ⇒ different keys -/
 theorem key_injective (i₁ i₂ : Ident) (in₁ in₂ : AL Val) (h : cacheKey i₁ in₁ = cacheKey i₂ in₂) :
     i₁ = i₂ ∧ sortInputs in₁ = sortInputs in₂ := by
   simpa [cacheKey] using h
 
 /-- the key before the repair: one function, output names `["a"]` vs `["b"]`, same key -/
 theorem old_key_collides :
-    let i₁ : Ident := { defHash := "h", cls := "FunctionNode", outputs := ["a"], targets := [] }
-    let i₂ : Ident := { defHash := "h", cls := "FunctionNode", outputs := ["b"], targets := [] }
+    let i₁ : Ident := { defHash := "h", cls := "FunctionNode", outputs := ["a"], targets := [],
+                        fallback := none }
+    let i₂ : Ident := { defHash := "h", cls := "FunctionNode", outputs := ["b"], targets := [],
+                        fallback := none }
     let ins : AL Val := [("x", .int 1)]
     cacheKeyOld i₁ ins = cacheKeyOld i₂ ins ∧ cacheKey i₁ ins ≠ cacheKey i₂ ins := by
   decide
@@ -316,7 +319,7 @@ example : cacheKey default [("b", .int 1), ("a", .int 2)] = cacheKey default [("
     cacheKey default [("a", .int 2)] ≠ cacheKey default [("a", .int 3)] := by decide
 
 /-- WITNESS for the rename repair. `f(x, y)` and `g = f.with_inputs(x='y', y='x')` have the same kind,
-output names and targets, and (renaming does not touch `definition_hash`) the same definition hash, hence
+output names, targets and (absent) fallback, and (renaming does not touch `definition_hash`) the same definition hash, hence
 the same identity in every key environment that gives them one hash. On the inputs dict `{x: 5, y: 2}`
 the function receives `(x=5, y=2)` from `f` but `(x=2, y=5)` from `g`. The pre-repair key
 (`keyOfCurrent`, inputs under their *current* names) is nevertheless one and the same for both — in a
@@ -355,6 +358,57 @@ theorem rename_collision_witness :
 example : identOf envSw fEx = identOf envSw gEx ∧
     keyOfCurrent envSw fEx insEx = keyOfCurrent envSw gEx insEx ∧
     keyOf envSw fEx insEx = "k52" ∧ keyOf envSw gEx insEx = "k25" := by decide
+
+/-- WITNESS for the fallback repair. `g₁` and `g₂` are two route gates over one routing function (same
+`definition_hash` in every key environment that gives them one hash), with the same class, output names
+and targets `["a", "b"]`; they differ only in `fallback` (`"a"` vs `"b"`). When the routing function
+returns `None` the executor (`execRoute`) assigns the decision *after* applying the fallback — `"a"` for
+`g₁`, `"b"` for `g₂` — and that is the decision `store_in_cache` stores. The pre-repair identity
+(`identOfNoFallback`: hash, class, outputs, targets) is one and the same for both, so is the pre-repair key
+(`keyOfNoFallback`) on every inputs dict: in a shared cache `g₂` was served `g₁`'s decision `"a"`. The
+repaired identity (`identOf`, with the `fallback` component) differs; so does the hashed content
+(`cacheKey`), and the key string for every collision-free `hash`. -/
+theorem fallback_collision_witness :
+    let g₁ : NodeD := { (default : NodeD) with
+      name := "g1", kind := .route, targets := [.node "a", .node "b"], fallback := some (.node "a"),
+      cache := true }
+    let g₂ : NodeD := { g₁ with name := "g2", fallback := some (.node "b") }
+    let sem : Sem := fun _ _ => .dec .none
+    -- same class, output names, targets; different fallback
+    g₁.kind = g₂.kind ∧ g₁.outputs = g₂.outputs ∧ g₁.targets = g₂.targets ∧ g₁.fallback ≠ g₂.fallback ∧
+    -- the function returns `None`: the decisions the executor assigns (and the cache stores) differ
+    (execRoute sem 0 g₁ []).dec = some (.one "a") ∧ (execRoute sem 0 g₂ []).dec = some (.one "b") ∧
+    outcome (execRoute sem 0 g₁ []) ≠ outcome (execRoute sem 0 g₂ []) ∧
+    ∀ env : KeyEnv, env.defHash g₁ = env.defHash g₂ → ∀ ins : AL Val,
+      -- before the repair: one identity, one key for both gates
+      identOfNoFallback env g₁ = identOfNoFallback env g₂ ∧
+      keyOfNoFallback env g₁ ins = keyOfNoFallback env g₂ ins ∧
+      -- after the repair: different identity, different hashed content, hence different keys
+      identOf env g₁ ≠ identOf env g₂ ∧
+      cacheKey (identOf env g₁) (toParams g₁ ins) ≠ cacheKey (identOf env g₂) (toParams g₂ ins) ∧
+      ((∀ a b, env.hash a = env.hash b → a = b) → keyOf env g₁ ins ≠ keyOf env g₂ ins) := by
+  intro g₁ g₂ sem
+  refine ⟨rfl, rfl, rfl, by decide, by decide, by decide, by decide, ?_⟩
+  intro env hdh ins
+  have hid : identOfNoFallback env g₁ = identOfNoFallback env g₂ := by
+    simp only [identOfNoFallback, hdh]; rfl
+  have hfb : g₁.fallback ≠ g₂.fallback := by decide
+  have hne : identOf env g₁ ≠ identOf env g₂ := fun e => hfb (congrArg Ident.fallback e)
+  have hck : cacheKey (identOf env g₁) (toParams g₁ ins) ≠ cacheKey (identOf env g₂) (toParams g₂ ins) :=
+    fun e => hne (congrArg Prod.fst e)
+  refine ⟨hid, ?_, hne, hck, fun hinj e => hck (hinj _ _ e)⟩
+  simp only [keyOfNoFallback, hid]; rfl
+
+/-- the pre-repair identity is the repaired one with the `fallback` component forgotten, and the two
+agree on every node without a fallback (every non-gate, every `ifelse`, every route without one): the
+repair changes no other key -/
+theorem identOfNoFallback_eq (env : KeyEnv) (nd : NodeD) :
+    identOfNoFallback env nd = { identOf env nd with fallback := none } ∧
+    (nd.fallback = none → identOf env nd = identOfNoFallback env nd ∧
+      ∀ ins, keyOf env nd ins = keyOfNoFallback env nd ins) := by
+  refine ⟨rfl, fun h => ?_⟩
+  have : identOf env nd = identOfNoFallback env nd := by simp only [identOf, identOfNoFallback, h]
+  exact ⟨this, fun ins => by simp only [keyOf, keyOfNoFallback, this]⟩
 
 /-- renames are transparent to the cache: the key depends on the inputs only through the sorted
 *parameter-level* inputs. (1) for one node, two input dicts that are the same call of the function have
@@ -611,11 +665,12 @@ example :
     r1.res.toOption = some [(routingKey, .sentinel)] ∧ r2.res.toOption = some [] ∧ r2.dec = some Dec.end_ := by
   decide
 
-/-! ## 7. a hit needs the same identity and the same arguments -/
+/-! ## 7. a hit needs the same identity (fallback included) and the same arguments -/
 
 /-- the entry served to `(nd₂, in₂)` is the argument of the most recent `set` on its own key string
 (never the entry of another key), and every `set` on that key string was made for a node of the same
-identity with the same sorted parameter-level inputs (`toParams`: the arguments the function receives,
+identity (`Ident`: definition hash, class, output names, targets, fallback — spelled out in
+`hit_requires_same_fields`) with the same sorted parameter-level inputs (`toParams`: the arguments the function receives,
 under its own parameter names — so a renamed sibling is served exactly when it makes the same call) -/
 theorem hit_requires_same_identity (env : KeyEnv) (hinj : ∀ a b, env.hash a = env.hash b → a = b)
     (ms : Option Nat) (ops : List (Op (AL Val))) (nd₂ : NodeD) (in₂ : AL Val) (e : AL Val)
@@ -628,6 +683,55 @@ theorem hit_requires_same_identity (env : KeyEnv) (hinj : ∀ a b, env.hash a = 
   refine ⟨lastSet_split ops _ e (lru_get_sound ms ops _ e hhit), ?_⟩
   intro nd₁ in₁ _ _ hk
   exact key_injective _ _ _ _ (hinj _ _ hk)
+
+/-- the same, field by field: every `set` on the key string that serves `(nd₂, in₂)` was made for a node
+with the same definition hash, the same class (kind), the same output names, the same targets and the
+same `fallback` target, on the same sorted parameter-level inputs. In particular two route gates over
+one function that differ only in their fallback never share an entry. -/
+theorem hit_requires_same_fields (env : KeyEnv) (hinj : ∀ a b, env.hash a = env.hash b → a = b)
+    (ms : Option Nat) (ops : List (Op (AL Val))) (nd₂ : NodeD) (in₂ : AL Val) (e : AL Val)
+    (hhit : (((Lru.empty ms).run ops).get (keyOf env nd₂ in₂)).2 = some e) :
+    ∀ nd₁ in₁ w, Op.set (keyOf env nd₁ in₁) w ∈ ops → keyOf env nd₁ in₁ = keyOf env nd₂ in₂ →
+      env.defHash nd₁ = env.defHash nd₂ ∧ nd₁.kind = nd₂.kind ∧ nd₁.outputs = nd₂.outputs ∧
+      nd₁.targets = nd₂.targets ∧ nd₁.fallback = nd₂.fallback ∧
+      sortInputs (toParams nd₁ in₁) = sortInputs (toParams nd₂ in₂) := by
+  intro nd₁ in₁ w hmem hk
+  obtain ⟨hid, hs⟩ := (hit_requires_same_identity env hinj ms ops nd₂ in₂ e hhit).2 nd₁ in₁ w hmem hk
+  exact ⟨congrArg Ident.defHash hid, className_inj (congrArg Ident.cls hid), congrArg Ident.outputs hid,
+    congrArg Ident.targets hid, congrArg Ident.fallback hid, hs⟩
+
+/-- the fallback repair, through the cache: an entry stored for a node is never served to a node with a
+different `fallback` (with the pre-repair key it was, see `fallback_collision_witness`) -/
+example (env : KeyEnv) (hinj : ∀ a b, env.hash a = env.hash b → a = b) (nd₁ nd₂ : NodeD) (ins : AL Val)
+    (e : AL Val) (hfb : nd₁.fallback ≠ nd₂.fallback) :
+    (((Lru.empty none).run [Op.set (keyOf env nd₁ ins) e]).get (keyOf env nd₂ ins)).2 = none := by
+  cases h : (((Lru.empty none).run [Op.set (keyOf env nd₁ ins) e]).get (keyOf env nd₂ ins)).2 with
+  | none => rfl
+  | some e' =>
+    obtain ⟨⟨pre, post, hops, _⟩, _⟩ := hit_requires_same_identity env hinj none _ nd₂ ins e' h
+    have hmem : Op.set (keyOf env nd₂ ins) e' ∈ [Op.set (keyOf env nd₁ ins) e] := by rw [hops]; simp
+    simp at hmem
+    exact absurd (hit_requires_same_fields env hinj none _ nd₂ ins e' h nd₁ ins e (by simp)
+      hmem.1.symm).2.2.2.2.1 hfb
+
+/-- … whereas with the pre-repair key it is: the second gate of `fallback_collision_witness` hits the
+first one's entry, and is handed the decision `"a"` where its own executor decides `"b"` -/
+example (env : KeyEnv) (hdh : ∀ nd nd' : NodeD, env.defHash nd = env.defHash nd') :
+    let g₁ : NodeD := { (default : NodeD) with
+      name := "g1", kind := .route, targets := [.node "a", .node "b"], fallback := some (.node "a"),
+      cache := true }
+    let g₂ : NodeD := { g₁ with name := "g2", fallback := some (.node "b") }
+    let entry := toCache g₁ [] (execRoute (fun _ _ => .dec .none) 0 g₁ []).dec
+    (((Lru.empty none).run [Op.set (keyOfNoFallback env g₁ []) entry]).get (keyOfNoFallback env g₂ [])).2
+      = some entry ∧
+    (restoreDecision g₂ entry).2 = some (.one "a") ∧
+    (execRoute (fun _ _ => .dec .none) 0 g₂ []).dec = some (.one "b") := by
+  intro g₁ g₂ entry
+  have : keyOfNoFallback env g₂ [] = keyOfNoFallback env g₁ [] := by
+    simp only [keyOfNoFallback, identOfNoFallback, hdh g₂ g₁]; rfl
+  refine ⟨?_, by decide, by decide⟩
+  rw [this, Lru.get_snd]
+  simp [Lru.run, Lru.step, Lru.set, Lru.empty, AL.has, AL.get?, AL.put]
 
 /-- two nodes sharing one function but producing under different output names never share an entry
 (with the old key they did): the second node misses -/
